@@ -39,6 +39,7 @@ K_ADFCYCLE_LEAK = "fd:adf-link-cycle-keeps-files-open"  # (repaired close only) 
 K_SAVEAS = "fd:cg_save_as-fails-after-cgio-open"       # cg_save_as returns CG_ERROR and keeps the output file open
 K_FAILIDS = "h5id:failed-read-without-type-keeps-ids"  # ADFH_Read_*_Data: m_data_type == NULL returns with the dataset and group ids open
 K_KIDSIDS = "h5id:children-ids-nothing-found-keeps-group"  # ADFH_Children_IDs: nothing in the range asked for -> returns without H5Gclose
+K_ARRAYREAD = "leak:cg_array_read_as"                     # cg_array_read_as: the conversion buffer is lost when the read of the node fails
 K_H5TWICE = "fd:hdf5-same-file-opened-twice"           # ADFH get_file_id picks the other handle's file id: the second close fails (95)
 
 
@@ -108,7 +109,9 @@ BAD_CLASSES = ["badtype", "nulltype", "mismatch", "start0", "endbig", "startgten
 STRAND_KINDS = ["dataset", "group", "attr", "datatype"]
 # refused node-level calls (harness op "badnode")
 BADNODE_CALLS = ["kids_leaf", "kids_past", "names_leaf", "names_past", "getid_missing", "label_long", "name_dup", "name_long", "dims_type",
-                 "dims_rank", "linksize_nolink", "getlink_nolink", "newnode_dup", "newnode_type", "move_missing", "delete_notchild"]
+                 "dims_rank", "linksize_nolink", "getlink_nolink", "newnode_dup", "newnode_type", "move_missing"]
+# (not in the family: "delete_notchild" -- ADF_Delete(parent, id) with id not a child of parent reports the error AFTER it has
+#  deleted the subtree and the data of id: a refused call that destroys the world the sessions rely on; reported to C12)
 NOTABLE = ("data ", "bad ", "strand ", "multi ", "badnode ")             # operations that touch no handle table (not given to the model)
 MLL_DTYPES = ["Integer", "LongInteger", "RealSingle", "RealDouble", "Character", "ComplexSingle", "ComplexDouble"]
 
